@@ -366,7 +366,7 @@ def run_pipeline(job):
         return {"crash": "unparsable output: " + p.stdout.decode(errors="replace")[-500:]}
 
 
-def project_of(routes, prefixes):
+def project_of(routes, prefixes, conflict=True):
     """One controller per distinct prefix."""
     ctls, byp = [], {}
     rs = []
@@ -377,6 +377,17 @@ def project_of(routes, prefixes):
         r2 = dict(r)
         r2["ctl"] = byp[pre]
         rs.append(r2)
+    if conflict:
+        # every controller also gets a clean pair of overlapping routes (`GET /cfK/{id}` next to `GET /cfK/me`):
+        # a route-conflict WARNING on those two receivers, so that ApiValidator's merge of conflict diagnostics
+        # into the controllers' entities runs in every project (it must not disturb anybody else's diagnostics)
+        for k, c in enumerate(ctls):
+            rs.append({"name": "CfA%d" % k, "ctl": c["name"], "prefix": c["prefix"], "pert": [],
+                       "attrs": [{"k": "Method", "v": "GET"}, {"k": "Route", "v": "/cf%d/{id}" % k}, {"k": "Path", "v": "id"}],
+                       "params": [{"name": "id", "base": "TPrim", "shape": "SPlain"}], "rets": ["RPlain", "RError"]})
+            rs.append({"name": "CfB%d" % k, "ctl": c["name"], "prefix": c["prefix"], "pert": [],
+                       "attrs": [{"k": "Method", "v": "GET"}, {"k": "Route", "v": "/cf%d/me" % k}],
+                       "params": [], "rets": ["RPlain", "RError"]})
     return {"controllers": ctls, "routes": rs}
 
 
@@ -394,6 +405,9 @@ def observe_projects(projects, workdir, full=True, keep=False):
     return outs, layouts
 
 
+STATS = {"conflict_warnings_on_added_pairs": 0, "projects_with_added_pairs": 0}
+
+
 def receiver_obs(out, names):
     """Per receiver name: observation from one project's output, or None when the project as a whole
     failed so that nothing can be said per receiver."""
@@ -407,9 +421,12 @@ def receiver_obs(out, names):
     per = {n: {"kind": 2, "diags": [], "accepted": False, "present": False} for n in names}
     if r["validate_err"]:
         return {"validate_err": r["validate_err"]}, None
+    STATS["projects_with_added_pairs"] += 1
     for d in r["diags"]:
         if d["kind"] == "Receiver" and d["entity"] in per:
             per[d["entity"]]["diags"].append((CODE_N.get(d["code"], 99), d["severity"]))
+        elif d["kind"] == "Receiver" and re.match(r"Cf[AB]\d+$", d["entity"]) and d["code"] == "route-conflict":
+            STATS["conflict_warnings_on_added_pairs"] += 1
     present = None
     if not r["intermediate_err"] and r.get("meta"):
         present = set()
@@ -676,6 +693,14 @@ def deliberate_routes():
         mk("DAliasPtrSlice", "/c0", [A("Method", "GET"), A("Route", "/daps"), A("Query", "q")],
            [Pm("q", "TPrimAlias", "SPtrSlice")], ["RError"], CLASS_NAMES[16]),
         mk("DForeignErr", "/c0", [A("Method", "GET"), A("Route", "/dfe")], [], ["RForeignEmbeds"], CLASS_NAMES[17]),
+        # the link validator reports the same alias diagnostic from two passes and must de-duplicate it even when
+        # other diagnostics sit in between
+        mk("DTwoNonStr", "/c0", [A("Method", "GET"), A("Route", "/dtn/{id}/{post}"),
+                                 {"k": "Path", "v": "id", "alias": {"n": 5}}, {"k": "Path", "v": "post", "alias": {"n": 6}}],
+           [Pm("id"), Pm("post")], ["RError"], "two-non-string-aliases"),
+        mk("DNonStrMissing", "/c0", [A("Method", "GET"), A("Route", "/dnm/{id}"), {"k": "Path", "v": "idd", "alias": {"n": 5}}],
+           [Pm("id")], ["RError"], "non-string-alias-and-missing-parameter"),
+        mk("DVerbLower", "/c0", [A("Method", "get"), A("Route", "/dvl")], [], ["RError"], "lower-case-verb"),
     ]
 
 
@@ -695,6 +720,83 @@ def rename_unique(routes):
         for a in r["attrs"]:
             if a["k"] == "Route" and a["v"].startswith("/"):
                 a["v"] = re.sub(r"^/(r\d+|d[a-z]+|early\w*?)(?=/|$)", lambda m: "/" + m.group(1) + "n%d" % i, a["v"], 1)
+
+
+# ------------------------------------------------------------------ same-named types in same-named packages
+
+NAMESAKE_SRC = """package api
+
+import "github.com/gopher-fleece/runtime"
+
+// ApiError of %(ver)s
+type ApiError struct {
+	%(field)s
+	Code int `json:"code"`
+}
+
+// @Tag(%(ctl)s)
+// @Route(/%(ver)s/x)
+type %(ctl)s struct {
+	runtime.GleeceController
+}
+
+// @Method(GET)
+// @Route(/%(seg)s/{id})
+// @Path(id)
+func (c *%(ctl)s) %(name)s(id string) (string, ApiError) {
+	panic("not called")
+}
+"""
+
+
+def namesake_cases(workdir):
+    """Two packages that are both called `api` (v1/api, v2/api), both declaring `ApiError`: one embeds error, the
+    other has it as a named field.  Each route must be judged by ITS package's type, in either validation order
+    (controllers are validated in name order).  Returns (routes, observations, cli jobs' roots)."""
+    shutil.rmtree(workdir, ignore_errors=True)
+    P.make_module(workdir)
+    routes, jobs, metas = [], [], []
+    for k, (good_ctl, bad_ctl) in enumerate([("AccountsCtl", "BillingCtl"), ("ZAccountsCtl", "BillingCtl")]):
+        root = os.path.join(workdir, "n%d" % k)
+        for ver, ctl, field, name in (("v1", good_ctl, "error", "NsGood%d" % k), ("v2", bad_ctl, "Err error `json:\"-\"`", "NsBad%d" % k)):
+            d = os.path.join(root, ver, "api")
+            os.makedirs(d)
+            with open(os.path.join(d, "c.go"), "w") as f:
+                f.write(NAMESAKE_SRC % {"ver": ver, "ctl": ctl, "field": field, "name": name, "seg": name.lower()})
+        conf = {
+            "commonConfig": {"controllerGlobs": ["./v1/api/*.go", "./v2/api/*.go"]},
+            "routesConfig": {"engine": "gin", "outputPath": "./dist/routes.go", "outputFilePerms": "0644",
+                             "packageName": "routes", "skipGenerateDateComment": True,
+                             "authorizationConfig": {"authFileFullPackageName": "verifproj/auth",
+                                                     "enforceSecurityOnAllRoutes": False}},
+            "openapiGeneratorConfig": {
+                "openapi": "3.0.0", "info": {"title": "API", "version": "1.0.0"}, "baseUrl": "https://api.example.com",
+                "securitySchemes": [{"description": "s", "name": "sec1", "fieldName": "x-sec1", "type": "apiKey", "in": "header"}],
+                "specGeneratorConfig": {"outputPath": "./dist/spec.json"}}}
+        with open(os.path.join(root, "gleece.json"), "w") as f:
+            json.dump(conf, f)
+        jobs.append({"dir": root, "config": "gleece.json", "rounds": 1, "fresh": False, "full": True})
+        for ver, name, rets in (("v1", "NsGood%d" % k, ["RPlain", "RLocalEmbeds"]), ("v2", "NsBad%d" % k, ["RPlain", "RLocalStruct"])):
+            routes.append({"name": name, "prefix": "/%s/x" % ver, "pert": ["deliberate:namesake-packages"],
+                           "attrs": [{"k": "Method", "v": "GET"}, {"k": "Route", "v": "/%s/{id}" % name.lower()},
+                                     {"k": "Path", "v": "id"}],
+                           "params": [{"name": "id", "base": "TPrim", "shape": "SPlain"}], "rets": rets})
+        metas.append(root)
+    outs = [run_pipeline(j) for j in jobs]
+    obs = []
+    for k, out in enumerate(outs):
+        names = ["NsGood%d" % k, "NsBad%d" % k]
+        o, bad = receiver_obs(out, names)
+        for n_ in names:
+            if o is None or "validate_err" in o:
+                obs.append({"kind": 1, "diags": [], "accepted": False, "note": bad or o.get("validate_err", "")[-200:]})
+                continue
+            x = o["per"][n_]
+            has_err = any(sv == 1 for (_, sv) in x["diags"])
+            pres = o["present"] is not None and n_ in o["present"]
+            obs.append({"kind": 2, "diags": sorted(x["diags"]), "accepted": (not has_err) and pres if o["present"] is not None
+                        else (not has_err)})
+    return routes, obs, metas
 
 
 # ------------------------------------------------------------------ evaluation of a list of routes
@@ -876,7 +978,10 @@ def main():
 
     if a.replay:
         rp = json.load(open(a.replay))
-        routes = list(rp["input"]["routes"]) if "routes" in rp["input"] else [rp["input"]]
+        if rp["input"].get("namesake"):
+            routes = []
+        else:
+            routes = list(rp["input"]["routes"]) if "routes" in rp["input"] else [rp["input"]]
         for r_ in routes:
             r_.setdefault("pert", [])
         base = []
@@ -900,6 +1005,14 @@ def main():
     rename_unique(routes)
 
     pred, obs, rs, notes = evaluate(routes, "main", workdir)
+    ns_roots = []
+    if not a.replay or not routes:
+        nroutes, nobs, ns_roots = namesake_cases(os.path.join(WORK, PROP, "namesake"))
+        nrs = coq_eval_cases(nroutes, [r["prefix"] for r in nroutes], nobs, "namesake")
+        routes += nroutes
+        obs += nobs
+        rs += nrs
+        pred += [2 if "NsBad" in r["name"] else 3 for r in nroutes]
 
     def fails(c, what):
         c = copy.deepcopy(c)
@@ -930,6 +1043,14 @@ def main():
                                "accepted but not well linked" if cl < 10 else "well linked but rejected"),
                            "note": "this class is not listed in known_findings.json"})
     for i in propfail[:3]:
+        if "deliberate:namesake-packages" in routes[i].get("pert", []):
+            res.violation({"kind": "property-fails-on-implementation", "input": {"namesake": True, "route": strip_route(routes[i])},
+                           "implementation_output": obs[i], "oracle": rs[i],
+                           "project": "packages v1/api and v2/api, both `package api`, both declaring struct ApiError (v1: embeds "
+                                      "error, v2: `Err error` field); NsGood<k> returns v1's, NsBad<k> returns v2's; k=1 validates "
+                                      "the bad one first (pygen/c10.py namesake_cases)",
+                           "claim": "prop_C10: the implementation accepts the route exactly when it is well linked"})
+            continue
         small = shrink_route(routes[i], lambda c: fails(c, "oracle"))
         res.violation({"kind": "property-fails-on-implementation", "input": strip_route(small),
                        "original": strip_route(routes[i]), "implementation_output": obs[i], "oracle": rs[i],
@@ -972,6 +1093,11 @@ def main():
         else:
             res.violation({"kind": "reflection-obligation", "obligation": "Gen_rules.rule_table_ok", "detail": table},
                           no_input=True)
+
+    if not a.replay and STATS["conflict_warnings_on_added_pairs"] == 0:
+        res.violation({"kind": "generator", "obligation": "gen:route-conflict-context",
+                       "note": "the overlapping route pairs added to every project produced no route-conflict warning: the "
+                               "conflict-merge path of ApiValidator is not exercised"}, no_input=True)
 
     # ---- the command
     cli_cases, cli_fails = [], []
@@ -1023,7 +1149,7 @@ def main():
                                "recorded_class_hits": {CLASS_NAMES.get(k, k): len(v) for k, v in class_hits.items()},
                                "cli_cases": [{"bad": c["bad"], "pre_existing": c["pre"], "exit": c["exit"],
                                               "routes": c["routes_state"], "spec": c["spec_state"]} for c in cli_cases]},
-        "unanalysable_projects": notes[:5],
+        "unanalysable_projects": notes[:5], "route_conflict_context": dict(STATS),
     })
     res.assumptions += [
         "enforceSecurityOnAllRoutes is off (validateSecurity is not part of the property)",
